@@ -269,6 +269,18 @@ def rm_disabled(prog, res):
         ok = m.must_pass(via_roots=z, via_edges=cond_edges(m, lambda c: c.get("k") == "ref" and c.get("n") == "removeSrcFile", "false"),
                          starts=closest(m, [(e[1], 0) for e in hs], sr), targets=sr)
     res.check(ok, R, "main:rm-reset-for-stdout", m.loc, "--rm is reset when the output goes to stdout", "--rm survives with stdout output")
+    # ... and when it goes to the null device (strcmp(outFileName, nulmark) == 0): nothing is kept that reproduces the source
+    def is_null_cmp(c):
+        return any(is_call(y, "strcmp") and any("null" in str(z.get("v") or z.get("s") or "").lower() or z.get("k") == "str" and "NUL" in str(z) for a_ in y.get("a", []) for z in walk(a_)) for y in m.walk_resolved(c))
+    nulls = [(bid, t) for bid, cond, t, fl in m.branches() if is_null_cmp(m.resolve_x(cond)) and strip_casts(m.resolve_x(cond)).get("k") == "un"] + \
+            [(bid, fl) for bid, cond, t, fl in m.branches() if is_null_cmp(m.resolve_x(cond)) and strip_casts(m.resolve_x(cond)).get("k") == "call"]
+    okn = False
+    for e in nulls:
+        st = closest(m, [(e[1], 0)], sr)
+        if st and m.must_pass(via_roots=z, via_edges=cond_edges(m, lambda c: c.get("k") == "ref" and c.get("n") == "removeSrcFile", "false"), starts=st, targets=sr):
+            okn = True
+    res.check(okn, R, "main:rm-reset-for-null-device", m.loc, "--rm is reset when the output is the null device",
+              "--rm survives when the output is the null device: `zstd --rm FILE -o /dev/null` deletes FILE although nothing reproduces it")
     tm = cond_edges(m, lambda c: c.get("k") == "bin" and c["op"] == "==" and any(y.get("n") == "zom_test" for y in walk(c)), "true")
     ok = bool(tm) and m.must_pass(via_roots=z, starts=[(e[1], 0) for e in tm], targets=sr)
     res.check(ok, R, "main:rm-reset-for-test", m.loc, "--rm is reset in test mode", "--rm survives in test mode")
@@ -388,6 +400,26 @@ def sparse_skip_conservation(prog, res):
     res.need(R, 6)
 
 
+def pass_through_only_at_file_start(prog, res):
+    """T3: -dcf copies a file that is not compressed at all.  Once a frame of the file has been decoded, what follows is either
+    another frame or an error (the library's verdict): every FIO_passThrough call in the frame loop lies on the edge where the
+    count of decoded frames (a local incremented after each frame decoder) is still zero."""
+    R = "T3.pass-through-only-at-file-start"
+    f = prog.fn("FIO_decompressFrames")
+    pt = f.call_roots("FIO_passThrough")
+    incs = [strip_casts(x["e"]).get("n") for b, i, x in f.events(lambda y: y.get("k") == "un" and y.get("op", "").endswith("++")) if strip_casts(x["e"]).get("k") == "ref"]
+    dec = f.call_roots(("FIO_decompressZstdFrame", "FIO_decompressGzFrame", "FIO_decompressLzmaFrame", "FIO_decompressLz4Frame"))
+    res.check(len(pt) >= 1 and len(dec) >= 1, R, "shape", f.loc, "%d pass-through site(s), %d frame decoders" % (len(pt), len(dec)), "pass-through sites %d, frame decoders %d" % (len(pt), len(dec)))
+    none_yet = guards.rel_edges(f, lambda a: strip_casts(a).get("k") == "ref" and strip_casts(a).get("n") in incs, "==", lambda b_: const_val(strip_casts(b_)) == 0, truth=True) + \
+        guards.truthy_edges(f, lambda c: c.get("k") == "ref" and c.get("n") in incs, truth=False)
+    for t in pt:
+        res.check(bool(none_yet) and f.must_pass(via_edges=none_yet, targets=[t]), R, "site@%s" % f.blocks[t[0]]["el"][t[1]].get("l"), f.loc,
+                  "pass-through only while no frame of this file has been decoded",
+                  "FIO_decompressFrames can fall back to pass-through after it decoded a frame: `zstd -dcf` on a valid frame followed by garbage appends the "
+                  "garbage to the output and exits 0, where the library refuses the input")
+    res.need(R, 2)
+
+
 def frames_end_on_empty_input(prog, res):
     """T3: the CLI's verdict for a file equals the library's.  The frame loop of FIO_decompressFrames may report success
     (return 0) only when, after at least one frame, NOTHING is left in the input: its only way to the success return is the
@@ -443,6 +475,7 @@ def run(tier):
     sparse_skip_conservation(prog, res)
     t4_common.run(prog, res, "T4.error-discipline", ["programs/fileio.c", "programs/fileio_asyncio.c"], 15)
     frames_end_on_empty_input(prog, res)
+    pass_through_only_at_file_start(prog, res)
     shared_destination_on_failure(prog, res)
     return res.finish(
         explanation="Order-of-effects rules on the CFG of the CLI's file pipeline: the source is removed only on the path "
